@@ -141,6 +141,26 @@ def run_tlc(module, cfg, files=None, workers=4, timeout=600, extra=None, heap="3
         else:
             rmtree(d)
 
+def run_apalache(module, args, timeout=600, edit=None):
+    """apalache-mc check <args> spec/<module>.tla in a scratch copy; returns (ok, outcome text). edit: (old, new) text replacement (weakened variant)."""
+    d = scratch("apa")
+    try:
+        src = open(os.path.join(SPEC, module + ".tla")).read()
+        if edit:
+            assert edit[0] in src
+            src = src.replace(edit[0], edit[1])
+        open(os.path.join(d, module + ".tla"), "w").write(src)
+        try:
+            r = subprocess.run(["apalache-mc", "check"] + list(args) + [module + ".tla"], cwd=d, capture_output=True, text=True, timeout=timeout)
+        except subprocess.TimeoutExpired:
+            return None, "timeout"
+        out = r.stdout + r.stderr
+        if "The outcome is: NoError" in out: return True, "NoError"
+        if "The outcome is: Error" in out: return False, "Error"
+        return None, out[-600:]
+    finally:
+        rmtree(d)
+
 def parse_tlc_trace(out):
     """Return the list of action names of a TLC error trace."""
     return re.findall(r"^State \d+: <(\w+)", out, re.M)
